@@ -118,6 +118,23 @@ def check(run: Run) -> None:
 
     _check_call_stack(Relabel(run, "C18.R6"), ctx, m)
 
+    # ---------------- R7: the simplifier edits the nodes it is given only through generic_visit
+    run.rule("C18.R7", "no method of simplify_chained_calls edits a field of a node it was handed other than through generic_visit (no append / += / item store on an alias of node.<field>)")
+    from ..effects import effects_for, loc_show
+
+    eff = effects_for(m)
+    n_m = 0
+    for name, fi in sorted(m.all_methods(cls).items()):
+        if fi.cls is None or not fi.cls.module.name.startswith("func_adl") or not fi.pos_params:
+            continue
+        n_m += 1
+        bad = [mu for mu in eff.summary.get(fi.qual, []) if mu.loc[0][0] == "param" and mu.loc[0][1] != fi.pos_params[0] and not mu.kind.startswith("in-place NodeTransformer.generic_visit") and not mu.via]  # direct edits: reported where they are made
+        for mu in bad:
+            run.fail("C18.R7", fi, mu.stmt, f"{fi.name} edits {loc_show(mu.loc)} of a node it was given ({mu.kind}{' via ' + mu.via if mu.via else ''}): the query the caller still holds - and the node that ends up in the output - is changed behind the traversal's back (e.g. a lambda's parameter list grows, giving 'lambda e, *a, *a')", "build a new list / node instead of editing the one that was passed in")
+        if not bad:
+            run.ok("C18.R7", fi, "no direct edit of a node that was passed in")
+    run.floor("C18.R7", n_m, 10, "methods of simplify_chained_calls")
+
     # ---------------- R4: exception inventory
     n_raise = 0
     for fi in [f for f in m.funcs.values() if f.module.name == mod]:
